@@ -50,7 +50,8 @@ let () =
            | "read" ->
              let ds = ref [] in
              String.iter (fun c -> match digit_of (z_of_int (Char.code c)) with Some d -> ds := d :: !ds | None -> failwith "bad digit") (arg 1);
-             dec_of_z (nl_read_int (z_of_dec (arg 0)) (List.rev !ds))
+             if arg 0 = "10" then (match nl_read_dec (List.rev !ds) with Some v -> dec_of_z v | None -> "float")
+             else dec_of_z (nl_read_int (z_of_dec (arg 0)) (List.rev !ds))
            | "type" ->
              (match nl_literal_type (z_of_dec (arg 0)) (z_of_dec (arg 1)) (ty_of (arg 2)) (ty_of (arg 3)) with
               | LT_int t -> Printf.sprintf "int %s %s %s" (dec_of_z t.it_bits) (b2s t.it_signed) (dec_of_z t.it_long)
